@@ -270,8 +270,10 @@ def r_json_keys(E):
         raise AnalysisError("json_to_explainable_object: if/elif chain not found")
     writers = [("ExplainableObject", EB), ("EmptyExplainableObject", EO), ("ExplainableQuantity", EO),
                ("ExplainableHourlyQuantities", EO)]
+    from ..astutil import inline_helpers
     for cls, suffix in writers:
         wrel, w = pm.find_function(suffix, f"{cls}.to_json")
+        w = inline_helpers(w, lambda name, _c=cls: (pm.find_method(_c, name)[1] if name != "to_json" else None))
         for p in _writer_paths(w):
             res.instances += 1
             selected = None
